@@ -89,7 +89,75 @@ func (in *Interp) flat(s Str) Str {
 	if s.R == nil {
 		return s
 	}
-	panic(pathEnd{"inconclusive", "length or content of a formatted string with symbolic arguments is needed"})
+	var out []Sc
+	for _, p := range s.R {
+		if p.Op == nil {
+			out = append(out, p.Lit...)
+			continue
+		}
+		b, ok := in.expandOpaque(p.Op)
+		if !ok {
+			panic(pathEnd{"inconclusive", "length or content of a formatted string with symbolic arguments is needed (" + p.Op.Verb + " of " + p.Op.Kind + ")"})
+		}
+		out = append(out, b...)
+	}
+	return Str{B: out}
+}
+
+// expandOpaque turns the decimal rendering of a symbolic integer (or the
+// %v / %t rendering of a symbolic bool) into bytes: the number of digits is
+// decided by branching on the value's range, each digit is a term.
+func (in *Interp) expandOpaque(op *Opaque) ([]Sc, bool) {
+	if len(op.Args) != 1 || (op.Verb != "%v" && op.Verb != "%d" && !(op.Verb == "%t" && op.Kind == "bool")) {
+		return nil, false
+	}
+	tt := in.tt
+	v := in.term(op.Args[0])
+	signed := false
+	switch op.Kind {
+	case "bool":
+		if in.ex.Branch(tt.Eq(v, tt.Const(v.W, 0))) {
+			return strOf("false").B, true
+		}
+		return strOf("true").B, true
+	case "uint8", "uint16", "uint32", "uint64", "uint", "uintptr":
+	case "int8", "int16", "int32", "int64", "int":
+		signed = true
+	default:
+		return nil, false
+	}
+	var out []Sc
+	if signed && in.ex.Branch(tt.Cmp(OSlt, v, tt.Const(v.W, 0))) {
+		out = append(out, Sc{W: 8, C: '-'})
+		v = tt.Un(OBvNeg, v)
+	}
+	// number of digits
+	nd := 1
+	pow := uint64(10)
+	for ; nd < 20; nd++ {
+		if v.W < 64 && pow >= 1<<uint(v.W) {
+			break
+		}
+		if in.ex.Branch(tt.Cmp(OUlt, v, tt.Const(v.W, pow))) {
+			break
+		}
+		if pow > (1<<63)/5 {
+			nd++
+			break
+		}
+		pow *= 10
+	}
+	digits := make([]Sc, nd)
+	div := uint64(1)
+	for i := nd - 1; i >= 0; i-- {
+		d := tt.Bin(OURem, tt.Bin(OUDiv, v, tt.Const(v.W, div)), tt.Const(v.W, 10))
+		ch := tt.Bin(OAdd, tt.Extract(7, 0, d), tt.Const(8, '0'))
+		digits[i] = in.fromTerm(ch)
+		if i > 0 {
+			div *= 10
+		}
+	}
+	return append(out, digits...), true
 }
 
 // ropeEqual compares two strings piece by piece. ok=false: the structures
